@@ -303,6 +303,7 @@ type caGen struct {
 	lastTS  map[string]int64 // last timestamp sent per target+leaf index
 	sent    []gNoti
 	seq     []string
+	atomicApart bool
 	allowPO bool // path-level origins allowed (outside the cache's stated contract: no replay monitor)
 }
 
@@ -548,6 +549,11 @@ func (g *caGen) step() {
 		g.notiOp(n)
 	case x < 70: // atomic
 		l := g.leaves[r.Intn(len(g.leaves))]
+		if g.atomicApart {
+			// containers never share an index with a plain leaf (su: a plain leaf replaced by a
+			// container at the same index is offered by the container's inner paths)
+			l = caLeaf{origin: l.origin, elems: append(append([]gElem(nil), l.elems...), gElem{name: "at"})}
+		}
 		pre, _ := g.splitLeaf(t, l, len(l.elems))
 		key := leafKey(t, l)
 		ts := g.pickTS(key)
